@@ -317,6 +317,9 @@ func genValue(r *rand.Rand) string {
 	}
 }
 
+// setupMode: what the Params.Setup hook does for script number idx.
+func setupMode(idx int) int { return idx % 3 }
+
 func genScript(r *rand.Rand, idx int) *script {
 	s := &script{name: fmt.Sprintf("s%d", idx)}
 	env := map[string]string{}
@@ -336,8 +339,29 @@ func genScript(r *rand.Rand, idx int) *script {
 		}
 		return m
 	}
+	// what Params.Setup does to the default variable HOME for this script (see setupMode):
+	// 0 nothing (HOME=/no-home), 1 removes it from env.Vars, 2 appends an overriding HOME=/setup-home
+	home, homeSet := "/no-home", true
+	switch setupMode(idx) {
+	case 1:
+		home, homeSet = "", false
+	case 2:
+		home = "/setup-home"
+	}
+	homeAt := r.Intn(12)
 	nlines := 12 + r.Intn(16)
 	for l := 0; l < nlines; l++ {
+		if l == homeAt {
+			// a default variable as the Setup hook left it: what the script expands and what a
+			// started program sees must agree
+			add("argv a${HOME}b $HOME", &probe{Kind: "argv", Want: []string{"a" + home + "b", home}, Env: snapshot()})
+			add("exec vhelper getenv HOME", nil)
+			if homeSet {
+				add("grab", &probe{Kind: "childenv", Want: []string{"HOME=" + home}})
+			} else {
+				add("grab", &probe{Kind: "childenv", Want: []string{"HOME!"}})
+			}
+		}
 		switch k := r.Intn(10); {
 		case k < 3: // env assignment(s), spelled through the quoter
 			na := 1 + r.Intn(2)
@@ -506,6 +530,23 @@ func main() {
 			rc := &recorder{recs: map[string][]record{}}
 			p := testscript.Params{
 				Files: files,
+				Setup: func(env *testscript.Env) error {
+					var idx int
+					fmt.Sscanf(filepath.Base(env.WorkDir), "script-s%d", &idx)
+					switch setupMode(idx) {
+					case 1: // a hermetic hook: the default HOME is taken out
+						var vars []string
+						for _, v := range env.Vars {
+							if !strings.HasPrefix(v, "HOME=") {
+								vars = append(vars, v)
+							}
+						}
+						env.Vars = vars
+					case 2: // a later entry overrides an earlier one
+						env.Vars = append(env.Vars, "HOME=/setup-home")
+					}
+					return nil
+				},
 				Cmds: map[string]func(ts *testscript.TestScript, neg bool, args []string){
 					"argv": func(ts *testscript.TestScript, neg bool, args []string) {
 						env := map[string]string{}
